@@ -1,5 +1,6 @@
 import Model
 import Proofs.Pool
+import Proofs.CloseLock
 import Spec
 import Gen
 import Proofs.ConnData
@@ -152,6 +153,20 @@ theorem C15_pool_double_put_counterexample :
 theorem C15_pool_gen :
     Gen.poolUsers.all (fun u => Pool.disciplined u.2) = true ∧
     (Gen.poolUsers.map (·.1)).contains "diam:ReadMessage" = true := by decide
+
+/-- (a fault on a connection whose writer is stuck in the transport) the deferred function of the
+    reader loop closes the transport without waiting for any mutex (`C15_close_gen`): whatever the
+    writer is doing, the close is enabled, and it is what ends the stuck write and frees the write
+    mutex - the fault costs this connection, and nothing is left behind that another goroutine
+    could wait for -/
+theorem C15_fault_closes_despite_stuck_writer (es : List CLEv) (s : CLState) (_h : CLState.run false {} es = some s)
+    (hr : s.closeRequested = true) (hc : s.closed = false) :
+    ∃ s', s.step false .closeDo = some s' ∧ s'.closed = true ∧
+      (s'.writer = .inTransport → ∃ s'', s'.step false .writeFails = some s'' ∧ s''.writer = .failed ∧ s''.lockHeld = false) := by
+  obtain ⟨s', hs, hc'⟩ := CL_close_enabled s hr hc
+  exact ⟨s', hs, hc', fun hw => (CL_writer_released s' hw hc').2⟩
+
+theorem C15_close_gen : Gen.closePaths = [("response.Close", [], true), ("conn.serve.defer1", [], true)] := by decide
 
 /-- structural facts regenerated from server.go -/
 theorem C15_gen : Gen.serveDeferRecover = true ∧ Gen.serveDeferClose = true ∧ Gen.serveDeferNotify = true ∧
